@@ -33,9 +33,13 @@ func checkC20(c *Ctx) {
 	pats := []string{"./storage", "./storage/app", "./storage/db", "./storage/fs", "./storage/fs/local", "./storage/benchfmt"}
 	p := mustLoad(c, loadOpts{}, pats...)
 	c20(c, p)
-	if c.Tier == "thorough" {
-		p2 := mustLoad(c, loadOpts{tags: "appengine"}, pats...)
-		c20Dropped(c, p2)
+	if c.Tier == "thorough" && c.override == nil {
+		if p2, err := load(c, loadOpts{tags: "appengine"}, pats...); err == nil {
+			c20Dropped(c, p2)
+		} else {
+			// classic App Engine SDK packages are not in the module cache: the appengine-tagged files cannot be type-checked here
+			c.Note("build configuration tags=appengine not analysed: %v", err)
+		}
 		p3 := mustLoad(c, loadOpts{}, "./storage/...")
 		c20CloseWithError(c, p3, relsOf(p3))
 	}
